@@ -10,7 +10,7 @@ ops:
   {"op":"resolve_default","root":Object,"conf":[[objCls,targetCls]…],
    "builtins":[[name,id,cls]…],"refs":[[name,targetCls,owner,attr,single(0|1)]…],
    "probes":[[name,targetCls]…],
-   "gram":[[hasAttrs(0|1),[altRule…]]…],"objmap":[[cls,rule]…],"tgtmap":[[cls,rule]…],"object":cls}
+   "gram":[[hasAttrs(0|1),[alt…]]…] (alt = rule | null (a match) | [rule|null…] (a sequence)),"objmap":[[cls,rule]…],"tgtmap":[[cls,rule]…],"object":cls}
      (the grammar as a C03 rule graph: body = ordered choice of the referenced rules; `objmap` / `tgtmap` send
       the class numbers of objects / of reference targets used in tree and conf to rule numbers, a class that is
       no rule of the grammar to a number ≥ |gram|; `object` is the target class standing for OBJECT)
@@ -85,14 +85,26 @@ def parseFqnProbes (a : Array Json) : Option (List (Nat × String × Nat)) :=
     let t ← asNat? (← xs[2]?)
     if xs.size = 3 then pure (c, n, t) else none
 
+/-- one alternative of a rule body: `n` = reference to rule `n`, `null` = a string / regex match,
+`[x…]` = a sequence of references and matches (e.g. `'(' L1 ')'`) -/
+def parseAlt (e : Json) : Option RuleTypes.Body :=
+  let atom (x : Json) : Option RuleTypes.Body :=
+    match x with
+    | .null => some .lit
+    | _ => (asNat? x).map RuleTypes.Body.ref
+  match e with
+  | .arr xs => (xs.toList.mapM atom).map RuleTypes.Body.seq
+  | _ => atom e
+
 def parseGram (a : Array Json) : Option RuleTypes.Gram :=
   a.toList.mapM fun e => do
     let xs ← asArr? e
     let h ← asNat? (← xs[0]?)
-    let alts ← asNatList? (← xs[1]?)
+    let altsJ ← asArr? (← xs[1]?)
+    let alts ← altsJ.toList.mapM parseAlt
     if xs.size = 2 ∧ h ≤ 1 then
       pure { hasAttrs := h == 1,
-             body := if alts.isEmpty then .lit else .choice (alts.map RuleTypes.Body.ref) }
+             body := if alts.isEmpty then .lit else .choice alts }
     else none
 
 /-- table conformance against the C03 model, over all pairs of mapped classes (+ OBJECT as target) -/
